@@ -22,6 +22,10 @@ class Unsupported(Exception):
     pass
 
 
+class Undefined(Exception):
+    """the operator's result is architecturally unconstrained for these operands (bsf/bsr of 0)"""
+
+
 def _h(*parts):
     d = hashlib.blake2b(repr(parts).encode(), digest_size=16).digest()
     return int.from_bytes(d, "little")
@@ -161,7 +165,9 @@ def apply_op(op, vals, ws, w, uninterp="hash"):
             return parity8(a)
         if op == "!":
             return (~a) & m
-        if op in ("bsf", "bsr") and a != 0:
+        if op in ("bsf", "bsr"):
+            if a == 0:
+                raise Undefined(op)
             return ((a & -a).bit_length() - 1) if op == "bsf" else (a.bit_length() - 1)
     if n == 3:
         a, b, c = vals
@@ -176,14 +182,16 @@ def apply_op(op, vals, ws, w, uninterp="hash"):
                 q = -q
             r = big - q * d
             return (q if op.startswith("idiv") else r) & m
+        # rotate through carry: the lifter passes the raw count (cl / imm8); the architectural count is
+        # (count & 0x1F) mod (w+1), and that masking is part of the operator's meaning
         if op == "<<<c_rez":
-            return rcl(a, b, c & 1, w)[0]
+            return rcl(a, b & 0x1F, c & 1, w)[0]
         if op == "<<<c_cf":
-            return rcl(a, b, c & 1, w)[1]
+            return rcl(a, b & 0x1F, c & 1, w)[1]
         if op == ">>>c_rez":
-            return rcr(a, b, c & 1, w)[0]
+            return rcr(a, b & 0x1F, c & 1, w)[0]
         if op == ">>>c_cf":
-            return rcr(a, b, c & 1, w)[1]
+            return rcr(a, b & 0x1F, c & 1, w)[1]
     if uninterp == "raise":
         raise Unsupported("operator %s/%d" % (op, n))
     # uninterpreted: a fixed pseudo-random function of (name, argument values, result width);
